@@ -58,14 +58,14 @@ def strategy(tier):
             log = draw(st.booleans()) if (fam == "unif" and v > 0) else False
             if fam == "unif":
                 lo, hi = sorted([v * draw(S.fl(0.4, 0.8, 3)), v * draw(S.fl(1.3, 2.5, 3))])
-                if lo == hi:
+                if hi - lo < 1e-3:
                     lo, hi = lo - 0.1, hi + 0.1
                 pars = [S.sig(math.log10(lo), 5), S.sig(math.log10(hi), 5)] if log else [S.sig(lo, 4), S.sig(hi, 4)]
             elif fam == "gamma":
                 shape = draw(st.sampled_from([20.0, 40.0]))
                 pars = [shape, S.sig(shape / v, 5)]
             else:
-                pars = [S.sig(v, 4), S.sig(0.08 * abs(v) + (0.02 if v == 0 else 0.0), 3)]
+                pars = [S.sig(v, 4), S.sig(0.08 * abs(v) + (0.02 if abs(v) < 1e-3 else 0.0), 3)]
             priors.append({"name": q, "dist": fam, "pars": pars, "log": log})
         # optional population constraint (pop_size, state): the named state's initial value is pop_size minus the others
         constraint = None
